@@ -305,7 +305,7 @@ theorem uncovered_request_raises (reg : List EquivRec) (m : Mode) (xdim tdim : D
 
 /-- … and then no number is produced, whatever the units and the value -/
 theorem uncovered_request_returns_nothing {K : Type} [Add K] [Sub K] [Mul K] [Div K] [OfNat K 0]
-    [OfNat K 1] [BEq K] [RPow K] [HasSqrt K] [OfRat K]
+    [OfNat K 1] [BEq K] [RPow K] [HasSqrt K] [OfRat K] [OfBits K]
     (pre : Prefixes K) (t : Lut K) (reg : List EquivRec) (consts params : List (String × K))
     (m : Mode) (u target : UnitV K) (xv : K) (name : String)
     (e : EquivRec) (hf : findEquiv reg name = some e) (hne : u.dim ≠ target.dim)
